@@ -127,6 +127,9 @@ def forward_checks(rep, fnd, pid, tier):
                         ok = False
                         rep.violation("ScatLayer returns a negative magnitude channel (%.3g) at %s" % (nmag.min(), cfg), case)
                     n_ok += ok
+                    if ok:
+                        rep.sample({"layer": "ScatLayer", "cfg": cfg, "observed": "equals the reference composition channel by channel; magnitudes >= 0",
+                                    "max_abs_output": float(np.abs(z).max())}, cap=3)
     # ---- second order, multiples of 8: values
     sizes2 = [(8, 8), (16, 8), (8, 24)] if tier == "quick" else [(8, 8), (16, 8), (8, 24), (16, 16), (32, 8)]
     for (biort, qshift) in FAMILIES[:3] if tier == "quick" else FAMILIES:
@@ -309,6 +312,8 @@ def backward_checks(rep, fnd, pid, tier):
                                   % (name, an, fd, pname), dict(case, analytic=an, finite_difference=fd))
                     break
             n_ok += ok
+            if ok:
+                rep.sample({"layer": name, "point": pname, "shape": list(shape), "directional_derivative_autograd": an, "finite_difference": fd}, cap=4)
     # ---- the stand-alone smooth magnitude function, every grad subset
     from pytorch_wavelets.scatternet.lowlevel import SmoothMagFn
     for need in ((True, True), (True, False), (False, True)):
